@@ -280,6 +280,24 @@ func hazards() []hazard {
 		"import (\n\t\"context\"\n\n\t\"go.uber.org/cff\"\n)\n\nfunc Run(ctx context.Context, n int) (string, error) {\n\tvar out string\n\terr := cff.Flow(ctx,\n//line tmpl.go:10\n\t\tcff.Params(n),\n//line tmpl.go:10\n\t\tcff.Results(&out),\n//line tmpl.go:10\n\t\tcff.Task(func(i int) (string, error) { return string(rune('a' + i%26)), nil }),\n//line p.go:30\n\t)\n\treturn out, err\n}\n", nil)
 	add("line-directives:decreasing", "accept",
 		"import (\n\t\"context\"\n\n\t\"go.uber.org/cff\"\n)\n\nfunc Run(ctx context.Context, n int) (string, error) {\n\tvar out string\n\terr := cff.Flow(ctx,\n//line tmpl.go:300\n\t\tcff.Params(n),\n//line tmpl.go:200\n\t\tcff.Results(&out),\n//line tmpl.go:100\n\t\tcff.Task(func(i int) (string, error) { return string(rune('a' + i%26)), nil }),\n//line p.go:30\n\t)\n\treturn out, err\n}\n", nil)
+	// signatures at the edge of what cff supports: whatever it decides, it must
+	// not accept them and then write code that does not compile
+	add("predicate-returns-defined-bool", "accept",
+		"import (\n\t\"context\"\n\n\t\"go.uber.org/cff\"\n)\n\ntype Enabled bool\n\nfunc Run(ctx context.Context, n int) (string, error) {\n\tvar out string\n\terr := cff.Flow(ctx,\n\t\tcff.Params(n),\n\t\tcff.Results(&out),\n\t\tcff.Task(func(i int) (string, error) { return string(rune('a' + i%26)), nil },\n\t\t\tcff.Predicate(func(i int) Enabled { return i > 0 })),\n\t)\n\treturn out, err\n}\n", nil)
+	add("predicate-of-named-func-type", "accept",
+		"import (\n\t\"context\"\n\n\t\"go.uber.org/cff\"\n)\n\ntype Gate func(int) bool\n\nfunc Run(ctx context.Context, n int) (string, error) {\n\tvar out string\n\tvar g Gate = func(i int) bool { return i > 0 }\n\terr := cff.Flow(ctx,\n\t\tcff.Params(n),\n\t\tcff.Results(&out),\n\t\tcff.Task(func(i int) (string, error) { return string(rune('a' + i%26)), nil }, cff.Predicate(g)),\n\t)\n\treturn out, err\n}\n", nil)
+	add("task-of-named-func-type", "accept",
+		"import (\n\t\"context\"\n\n\t\"go.uber.org/cff\"\n)\n\ntype Step func(int) (string, error)\n\nfunc Run(ctx context.Context, n int) (string, error) {\n\tvar out string\n\tvar st Step = func(i int) (string, error) { return string(rune('a' + i%26)), nil }\n\terr := cff.Flow(ctx,\n\t\tcff.Params(n),\n\t\tcff.Results(&out),\n\t\tcff.Task(st),\n\t)\n\treturn out, err\n}\n", nil)
+	add("task-returns-defined-error-type", "accept",
+		"import (\n\t\"context\"\n\n\t\"go.uber.org/cff\"\n)\n\ntype MyErr interface{ error }\n\nfunc Run(ctx context.Context, n int) (string, error) {\n\tvar out string\n\terr := cff.Flow(ctx,\n\t\tcff.Params(n),\n\t\tcff.Results(&out),\n\t\tcff.Task(func(i int) (string, MyErr) { return string(rune('a' + i%26)), nil }),\n\t)\n\treturn out, err\n}\n", nil)
+	add("context-alias-type", "accept",
+		"import (\n\t\"context\"\n\n\t\"go.uber.org/cff\"\n)\n\ntype Ctx = context.Context\n\nfunc Run(ctx Ctx, n int) (string, error) {\n\tvar out string\n\terr := cff.Flow(ctx,\n\t\tcff.Params(n),\n\t\tcff.Results(&out),\n\t\tcff.Task(func(c Ctx, i int) (string, error) { return string(rune('a' + i%26)), c.Err() }),\n\t)\n\treturn out, err\n}\n", nil)
+	add("context-defined-type", "accept",
+		"import (\n\t\"context\"\n\n\t\"go.uber.org/cff\"\n)\n\ntype Ctx interface{ context.Context }\n\nfunc Run(ctx context.Context, n int) (string, error) {\n\tvar out string\n\terr := cff.Flow(ctx,\n\t\tcff.Params(n, Ctx(ctx)),\n\t\tcff.Results(&out),\n\t\tcff.Task(func(c Ctx, i int) (string, error) { return string(rune('a' + i%26)), c.Err() }),\n\t)\n\treturn out, err\n}\n", nil)
+	add("slice-func-of-named-func-type", "accept",
+		"import (\n\t\"context\"\n\n\t\"go.uber.org/cff\"\n)\n\ntype Each func(int, string) error\n\nfunc Run(ctx context.Context, n int) error {\n\tvar f Each = func(i int, s string) error { _ = n; return nil }\n\treturn cff.Parallel(ctx, cff.Slice(f, []string{\"a\", \"b\"}))\n}\n", nil)
+	add("results-target-of-defined-pointer-type", "accept",
+		"import (\n\t\"context\"\n\n\t\"go.uber.org/cff\"\n)\n\ntype StrPtr *string\n\nfunc Run(ctx context.Context, n int) (string, error) {\n\tvar out string\n\tvar p StrPtr = &out\n\terr := cff.Flow(ctx,\n\t\tcff.Params(n),\n\t\tcff.Results(p),\n\t\tcff.Task(func(i int) (string, error) { return string(rune('a' + i%26)), nil }),\n\t)\n\treturn out, err\n}\n", nil)
 	add("unexported-foreign-type", "accept",
 		"import (\n\t\"context\"\n\n\t\"go.uber.org/cff\"\n\t\"scratch/HZ/ext\"\n)\n\nfunc Run(ctx context.Context, n int) (string, error) {\n\tvar out string\n\terr := cff.Flow(ctx,\n\t\tcff.Params(n),\n\t\tcff.Results(&out),\n\t\tcff.Task(ext.MakeX),\n\t\tcff.Task(ext.Show),\n\t)\n\treturn out, err\n}\n",
 		map[string]string{"ext/e.go": "package ext\n\nimport \"fmt\"\n\ntype x struct{ n int }\n\nfunc MakeX(i int) x { return x{i} }\n\nfunc Show(v x) string { return fmt.Sprint(v.n) }\n"})
